@@ -714,3 +714,16 @@ def replay(data):
     print("observed now:", short_obs(obs[0]))
     print("verdict of Run.C06Ref.judge_ref (0 = consistent with the property, 2 = contradicts it):", codes)
     return all(code & 2 == 0 for code in codes)
+
+
+# --- translated small functions (tools/gens/gen_pure.py): Props/T_directives.v proves the regenerated Python functions
+# equal to the hand models this property's theorems are about; explore_t cross-checks the translator itself
+import t_check  # noqa: E402
+PROP_FILES = PROP_FILES + ["Props/T_directives.v"]
+RUN_FILES = RUN_FILES + ["Run/TRunDirectives.v"]
+_explore_without_t = explore
+
+
+def explore(rep, br, tier, seed):
+    _explore_without_t(rep, br, tier, seed)
+    t_check.explore_t(rep, tier, seed, pid=ID, only=["directives"])
